@@ -785,11 +785,18 @@ def lenB : List Val → M Val
   | .map r :: _ => do pure (.num (Float.ofNat (← getMap r).length))
   | _ => throw (plain "Need a list or a map as first parameter")
 
-/-- `append(argList[:i], argList[i+1:]...)`: shifts inside the same backing array -/
+/-- del(list, i) after the repair: `make([]interface{}, 0, len-1)` filled with `argList[:i]` and `argList[i+1:]` —
+    a NEW list; the argument (and every list sharing its memory) is unchanged -/
 def delAt (r l i : Nat) : M Val := do
-  let b ← getBacking r
-  setBacking r (b.take i ++ (b.take l).drop (i + 1) ++ b.drop (l - 1))
-  pure (.list r (l - 1))
+  let xs ← getList r l
+  newListExact (xs.take i ++ xs.drop (i + 1))
+
+/-- the key `del(map, k)` removes: an existing number key if the string form of `k` is a number (as reads and
+    writes choose it), otherwise the string form -/
+def delKeyOf (kvs : List (Val × Val)) (key : List Nat) : Val :=
+  match atoi key with
+  | some i => if (mapLookup kvs (.num (Float.ofInt i))).isSome then .num (Float.ofInt i) else .str key
+  | none => .str key
 
 /-- delFunc -/
 def delB : List Val → M Val
@@ -801,19 +808,19 @@ def delB : List Val → M Val
   | [.map r, k] => do
     let key ← sprint k
     let kvs ← getMap r
-    setMap r (kvs.filter fun p => !(keyEq p.1 (.str key)))
+    setMap r (kvs.filter fun p => !(keyEq p.1 (delKeyOf kvs key)))
     pure (.map r)
   | _ => throw (plain "Need a list or a map as first parameter and an index or key as second parameter")
 
-/-- `append(list, 0); copy(list[i+1:], list[i:]); list[i] = v` -/
+/-- add(list, v, i) after the repair: a NEW list of capacity len+1 holding `argList[:i]`, `v`, `argList[i:]` -/
 def insertAt (r l : Nat) (v : Val) (i : Nat) : M Val := do
-  match ← appendVals r l [.num 0] with
-  | .list r' l' =>
-    let b ← getBacking r'
-    let cur := b.take l'
-    setBacking r' (cur.take i ++ [v] ++ (cur.drop i).take (l' - i - 1) ++ b.drop l')
-    pure (.list r' l')
-  | x => pure x
+  let xs ← getList r l
+  newListExact (xs.take i ++ [v] ++ xs.drop i)
+
+/-- add(list, v) after the repair: a NEW list of capacity len+1 holding the old elements and `v` -/
+def appendNew (r l : Nat) (v : Val) : M Val := do
+  let xs ← getList r l
+  newListExact (xs ++ [v])
 
 /-- addFunc -/
 def addB : List Val → M Val
@@ -823,10 +830,10 @@ def addB : List Val → M Val
       let x ← numParamB 3 ix
       let i ← goInt x
       if i < 0 || i > (l : Int) then throw (plain "Out of bounds access to list")
-      -- int(index+1) / int(index) of a non-integral index differ from i+1 / i only in the fraction
+      -- int(index) of a non-integral index differs from i only in the fraction
       if !(isIntegral x) then throw (Sig.unsupported "add with a non-integral index")
       insertAt r l v i.toNat
-    | _ => appendVals r l [v]
+    | _ => appendNew r l v
   | _ :: _ :: _ => throw (plain "Parameter 1 should be a list")
   | _ => throw (plain "Need a list as first parameter and a value as second parameter")
 
